@@ -178,7 +178,16 @@ PropC09b(e) == e.ev = "fillbring" =>
   ELSE /\ e.one.outcome = "ok" /\ Norm(e.one.abs) = Norm(w1) /\ e.one.vars = Vars(w1)
        /\ e.two.outcome = "ok" /\ Norm(e.two.abs) = Norm(w2) /\ e.two.vars = Vars(w2)
        /\ Same(e.two, e.direct)
-InvC09 == l > 0 => PropC09(E) /\ PropC09e(E) /\ PropC18e(E) /\ PropC09b(E)
+       \* the value together with values for the variables it brings, in one call: keys that name nothing in the template
+       \* are ignored, so the result is w1 again
+       /\ ("oncall" \in DOMAIN e /\ ~e.clash) => e.oncall.outcome = "ok" /\ Norm(e.oncall.abs) = Norm(w1) /\ e.oncall.vars = Vars(w1)
+\* a fill-in string around the largest item there can be (16 777 215 characters): refused exactly as the factory refuses
+\* it - beyond the limit, whatever upper bound the variable declares - and otherwise the item holds all of it
+PropC09big(e) == e.ev = "fillbig" =>
+  /\ (e.ctor.outcome = "refused") = (e.n > 16777215)
+  /\ e.fill.outcome = e.ctor.outcome
+  /\ e.fill.outcome = "ok" => e.fill.size = e.n /\ e.fill.enc = e.n + 4 /\ e.ctor.size = e.n /\ e.ctor.enc = e.n + 4
+InvC09 == l > 0 => PropC09(E) /\ PropC09e(E) /\ PropC18e(E) /\ PropC09b(E) /\ PropC09big(E)
 InvC18e == l > 0 => PropC18e(E)
 InvC12 == l > 0 => PropC12(E)
 =====================================================================
